@@ -463,4 +463,30 @@ def rule_l(ctx: Ctx) -> None:
     lazy_path_kept(ctx, 'C06.l')
 
 
-RULES = [rule_a, rule_b, rule_c, rule_d, rule_e, rule_f, rule_g, rule_h, rule_i, rule_j, rule_k, rule_l]
+def rule_m(ctx: Ctx) -> None:
+    """Iterating a lazy resource yields the elements of the loaded tree - in the order of the loaded tree, document order.  The elements below the lazy
+    depth are only complete at their end events, which arrive in post-order; whatever buffers them must give them back in pre-order (or the full element is
+    walked with .iter()).  A buffer filled with appendleft() and yielded as it stands gives *reverse post-order*: parent, then the children right to left."""
+    rule = 'C06.m'
+    f = ctx.idx.method('xmlschema.resources.xml_resource.XMLResource', 'iter')
+    ctx.analysed(f.qualname)
+    ys = [y for y in ast.walk(f.node) if isinstance(y, ast.YieldFrom)]
+    ctx.floor(rule, '`yield from` sites of XMLResource.iter', len(ys), 2)
+    bad = []
+    for y in ys:
+        src = text(y.value)
+        if not isinstance(y.value, ast.Name):
+            continue
+        fills = [c for c in calls(f.node) if isinstance(c.func, ast.Attribute) and text(c.func.value) == src and c.func.attr in ('appendleft', 'append', 'insert', 'extendleft')]
+        for c in fills:
+            rev = c.func.attr in ('appendleft', 'extendleft') or (c.func.attr == 'insert' and c.args and isinstance(c.args[0], ast.Constant) and c.args[0].value == 0)
+            if rev:
+                bad.append((y, c))
+    ok = not bad
+    ctx.ob(rule, 'XMLResource.iter: the elements below the lazy depth are yielded in document order', f.loc(bad[0][1]) if bad else f.loc(), ok,
+           '' if ok else f'`{text(bad[0][1])}` at every end event and `yield from {text(bad[0][0].value)}` afterwards: <r><a><b><c/><d/></b><e/></a><f/></r> is iterated as r a e b d c f '
+           '(lazy depth 1) and r a b d c e f (depth 2) - the loaded tree gives r a b c d e f', key='XMLResource.iter|subtree-order')
+    ctx.explain('C06.m: a buffer that XMLResource.iter hands out with `yield from` is not filled at the front (appendleft / insert(0, …)) from the post-order end events.')
+
+
+RULES = [rule_a, rule_b, rule_c, rule_d, rule_e, rule_f, rule_g, rule_h, rule_i, rule_j, rule_k, rule_l, rule_m]
